@@ -1,0 +1,99 @@
+//go:build verif
+// +build verif
+
+package network
+
+import (
+	"sort"
+
+	"github.com/LemoFoundationLtd/lemochain-core/common"
+)
+
+// Hooks for the C20 verification harness in /verif (build tag "verif" only): read-only views of the
+// out-of-order caches of the protocol manager and an entry to the stable-block loop. They add no
+// behaviour of their own. (The entry points shared with C15 are in c15_verif.go.)
+
+// VerifC20Caches returns the two caches of a protocol manager.
+func VerifC20Caches(pm *ProtocolManager) (*ConfirmCache, *BlockCache) {
+	return pm.confirmsCache, pm.blockCache
+}
+
+// VerifC20Group is one height group of a BlockCache as it is stored (a group may be empty).
+type VerifC20Group struct {
+	Height uint32
+	Hashes []common.Hash // sorted
+	SameAs int           // index of an earlier list entry that is this very group object, -1 if none
+}
+
+// VerifC20BlockGroups copies the internal group list of a BlockCache, in storage order.
+func VerifC20BlockGroups(c *BlockCache) []VerifC20Group {
+	c.lock.Lock()
+	defer c.lock.Unlock()
+	out := make([]VerifC20Group, 0, len(c.cache))
+	first := make(map[*blocksSameHeight]int)
+	for i, g := range c.cache {
+		vg := VerifC20Group{Height: g.Height, SameAs: -1}
+		if j, ok := first[g]; ok {
+			vg.SameAs = j
+		} else {
+			first[g] = i
+		}
+		for h := range g.Blocks {
+			vg.Hashes = append(vg.Hashes, h)
+		}
+		sort.Slice(vg.Hashes, func(i, j int) bool { return string(vg.Hashes[i][:]) < string(vg.Hashes[j][:]) })
+		out = append(out, vg)
+	}
+	return out
+}
+
+// VerifC20Confirm is one cached confirmation.
+type VerifC20Confirm struct {
+	Height uint32
+	Hash   common.Hash
+	Sig    []byte
+}
+
+// VerifC20CachedConfirms copies the content of a ConfirmCache, sorted by (height, hash); the
+// signatures of one block stay in arrival order. heights is the number of height entries (empty ones
+// included: that is what the 10240 limit counts).
+func VerifC20CachedConfirms(c *ConfirmCache) (list []VerifC20Confirm, heights int) {
+	c.lock.Lock()
+	defer c.lock.Unlock()
+	for height, byHash := range c.cache {
+		for hash, confirms := range byHash {
+			for _, d := range confirms {
+				list = append(list, VerifC20Confirm{Height: height, Hash: hash, Sig: append([]byte{}, d.SignInfo[:]...)})
+			}
+		}
+	}
+	sort.SliceStable(list, func(i, j int) bool {
+		if list[i].Height != list[j].Height {
+			return list[i].Height < list[j].Height
+		}
+		return string(list[i].Hash[:]) < string(list[j].Hash[:])
+	})
+	return list, len(c.cache)
+}
+
+// VerifC20StableBlockLoop is the loop Start() runs for stable-block notifications (returns when the
+// manager quits); VerifC20StableBlockSignal is the value the step signal (VerifC15SetTest) carries
+// after one notification was processed.
+func VerifC20StableBlockLoop(pm *ProtocolManager) { pm.stableBlockLoop() }
+
+const VerifC20StableBlockSignal = testStableBlock
+
+// VerifC20LoopVarShared reports whether closures made in a `for ... range` loop of this file share
+// one loop variable, as the module's `go 1.14` line says they do. The harness lists this file for
+// rewriting (the unreachable go statement makes the rewriter touch it), so the answer tells whether
+// rewritten files are still compiled with the module's language version.
+func VerifC20LoopVarShared() bool {
+	var fs []func() int
+	for _, v := range []int{1, 2} {
+		fs = append(fs, func() int { return v })
+	}
+	if len(fs) == 0 {
+		go func() {}()
+	}
+	return fs[0]() == 2
+}
